@@ -160,9 +160,62 @@ pub fn materialise(c: &Case) -> Mat {
             reads.push((r.clone(), q.clone()));
         }
     }
+    // k <= 31 (the other half of the cases with --min-count >= 3): two unrelated k-mers whose read hashes agree in
+    // 32 of their 64 bits (lower half, upper half, or the two halves folded together), found by a birthday search
+    // over the program's own hash function; S exactly min-count times, T twice, in the order S T S..S T S
+    if k <= 31 && k >= 15 && c.min_count >= 3 && (genome.len() + c.reads.len()) % 2 == 1 {
+        let pairs = colliding_pairs(k, c.rc);
+        if !pairs.is_empty() {
+            let (sk, tk, _kind) = &pairs[(genome.len() / 2 + c.reads.len()) % pairs.len()];
+            let q = vec![33 + c.min_qual.clamp(30, 93); k];
+            let mc = c.min_count as usize;
+            let mut order: Vec<&Vec<u8>> = vec![sk, tk];
+            order.extend(std::iter::repeat(sk).take(mc - 2));
+            order.push(tk);
+            order.push(sk);
+            for r in order {
+                reads.push((r.clone(), q.clone()));
+            }
+        }
+    }
     let n = reads.len();
     let split = 1 + gen::idx(c.split, n - 1);
     Mat { genome, reads, split }
+}
+
+/// Pairs of different k-mers whose read hash (what the counting filter keys on; taken from the program itself through
+/// `SplitKmer::get_hash`) agrees in its lower 32 bits, its upper 32 bits, or after folding the halves together:
+/// a birthday search over 400000 pseudo-random k-mers (a pure function of k and the strand mode; cached).
+pub fn colliding_pairs(k: usize, rc: bool) -> Vec<(Vec<u8>, Vec<u8>, &'static str)> {
+    use std::collections::HashMap;
+    static CACHE: std::sync::Mutex<Option<HashMap<(usize, bool), Vec<(Vec<u8>, Vec<u8>, &'static str)>>>> = std::sync::Mutex::new(None);
+    if let Some(v) = CACHE.lock().unwrap().get_or_insert_with(HashMap::new).get(&(k, rc)) {
+        return v.clone();
+    }
+    let mut x: u64 = 0x5EED_0000 + k as u64 * 2 + rc as u64;
+    let mut seen: [HashMap<u32, Vec<u8>>; 3] = [HashMap::new(), HashMap::new(), HashMap::new()];
+    let mut out: Vec<(Vec<u8>, Vec<u8>, &'static str)> = Vec::new();
+    let r = std::panic::catch_unwind(std::panic::AssertUnwindSafe(|| {
+        for _ in 0..400_000 {
+            let w: Vec<u8> = (0..k).map(|_| { x = crate::engine::splitmix64(x); model::BASES[(x >> 29) as usize & 3] }).collect();
+            let h = match ska::ska_dict::split_kmer::SplitKmer::<u64>::new(std::borrow::Cow::Borrowed(&w[..]), w.len(), None, k, rc, 0, ska::QualFilter::NoFilter, true) {
+                Some(it) => it.get_hash(),
+                None => continue,
+            };
+            for (i, (key, kind)) in [(h as u32, "lower_32_bits"), ((h >> 32) as u32, "upper_32_bits"), ((h ^ (h >> 32)) as u32, "folded_halves")].into_iter().enumerate() {
+                match seen[i].get(&key) {
+                    Some(other) if *other != w && model::canon(other, rc).arms != model::canon(&w, rc).arms => out.push((other.clone(), w.clone(), kind)),
+                    Some(_) => {}
+                    None => { seen[i].insert(key, w.clone()); }
+                }
+            }
+        }
+    }));
+    if r.is_err() {
+        out.clear();
+    }
+    CACHE.lock().unwrap().get_or_insert_with(HashMap::new).insert((k, rc), out.clone());
+    out
 }
 
 /// model counts: canonical full k-mer -> count of passing windows; returns (must, may) dictionaries
@@ -284,6 +337,7 @@ fn judge(c: &Case, m: &Mat, observed: Result<BTreeMap<Vec<u8>, u8>, String>, ctx
     if c.pal.is_some() { cl.push("self_rc_planted"); }
     if extras > 0 { cl.push("collision_extras"); }
     if c.k >= 33 { cl.push("128bit"); }
+    if c.k <= 31 && c.k >= 15 && c.min_count >= 3 && (c.genome.len() + c.reads.len()) % 2 == 1 { cl.push("planted_pair_with_half_colliding_read_hashes"); }
     if m.split * 2 == m.reads.len() && m.reads[..m.split] == m.reads[m.split..] { cl.push("both_files_identical(same_file_listed_twice_in_cli)"); }
     pass(near && qthr && !must.is_empty(), key_of(&(c.k, c.rc, c.min_count, c.min_qual, c.rule, &m.reads, m.split)), cl)
 }
@@ -477,7 +531,9 @@ fn dense_materialise(c: &DenseCase) -> (Case, Mat) {
         let t = (next() % (j as u64 + 1)) as usize;
         reads.swap(j, t);
     }
-    let split = reads.len() / 2;
+    // the two files of a pair need not be alike: in a third of the cases the first holds a single read (an orphan
+    // left by trimming), in another third the second does
+    let split = match c.seed % 3 { 0 => 1, 1 => reads.len() - 1, _ => reads.len() / 2 };
     let case = Case { k: c.k, rc: c.rc, genome: vec![], pal: None, reads: vec![], split: 0, min_count: c.min_count, min_qual: 0, rule: 0 };
     (case, Mat { genome, reads, split })
 }
